@@ -108,7 +108,8 @@ def c20 (op : String) (j : Json) : Option (R Json) :=
           else pure (mplLightness (fun q => (ratSqrt? q).getD 0) f o)
         | k => throw s!"unknown plot kind {k}"
       let vd := match o.vdimsArg with | some l => l | none => inplaneVdims f
-      pure ((resJ (listJ callJ) res).setObjVal! "leftover" (strsJ (leftover f vd)))
+      let mj := match setupMultiplier f o.mult with | .ok m => ratToJson m | .error _ => .null
+      pure (((resJ (listJ callJ) res).setObjVal! "leftover" (strsJ (leftover f vd))).setObjVal! "mult" mj)
   | _ => none
 
 end DFV.Drv
